@@ -15,3 +15,13 @@ func (r *Runtime) VerifSymbols() []*symbol.Symbol {
 	}
 	return symbols
 }
+
+// VerifLoadYield, when set, is called by Load after it has read the stores and before it
+// touches the symbol table (the harness parks a Load there to overlap it with other steps).
+var VerifLoadYield func()
+
+func verifYield() {
+	if f := VerifLoadYield; f != nil {
+		f()
+	}
+}
